@@ -407,7 +407,7 @@ pub fn main(seed: u64, tier: &str, only: Option<&str>) {
         run_wasm("replay", &out::unhex(f[2]), e, f[1] == "1", &mut stats, &mut rng);
         return;
     }
-    let n = if tier == "thorough" { 5000 } else { 360 };
+    let n = if tier == "thorough" { 5000 * crate::out::thorough_scale() } else { 360 };
     let prop = std::env::var("VERIF_PROPERTY").unwrap_or_default();
     for case in 0..n {
         let mut rng = Rng::new(seed ^ 0x6c, case as u64);
